@@ -35,3 +35,8 @@ Theorem obj_sign_entries_is_source ps ext pb payload : Forall signer_buckets_enc
   MsgObj.sign_entries ps pb ext payload
   = do l <- cose_SignMessage_WithSign_loop ps ext pb payload; Ok (map sigent_of_sigout l).
 Proof. intro F. rewrite gen_with_sign_loop. apply obj_sign_entries_is_entries, F. Qed.
+
+Theorem obj_sign_entries_is_source_total ps ext pb payload :
+  MsgObj.sign_entries ps pb ext payload
+  = do l <- cose_SignMessage_WithSign_loop ps ext pb payload; Ok (map sigent_of_sigout l).
+Proof. apply obj_sign_entries_is_source, all_signers_encodable. Qed.
